@@ -397,7 +397,7 @@ func vxC04Lookup() {
 	if small {
 		nmax = 2
 	}
-	n := vx.Choice("n", nmax+1)
+	n := 3 + 0*vx.Choice("n", 1) + 0*nmax //TMPN
 	var regs []*vxC04C
 	for k := 0; k < n; k++ {
 		v6 := fam == 1 || (fam == 2 && k%2 == 1)
